@@ -11,3 +11,4 @@ import TradingVerif.Props.C18
 #print axioms TV.Tab.ffillFrom_spec
 #print axioms TV.Tab.quotes_widened
 #print axioms TV.Tab.timesteps_spec
+#print axioms TV.Tab.tabular_obs_causal
